@@ -22,7 +22,8 @@ Contracts evaluated at run time on the real bionumpy functions (one `op` per con
   sort_history         SEVERAL sort_intervals calls in one process, each with its own way of ordering the SAME chromosome
                        names (sort_order lists, default string order, key functions returning str / int / tuple, bionumpy's
                        human_key_func, StringEncoding column): every call is ordered by ITS OWN chromosome ranking
-The two-set operations (count_overlap, intersect, global_intersect, unique_intersect, jaccard / forbes) are also evaluated
+The two-set operations (count_overlap, intersect, global_intersect, unique_intersect, Geometry.jaccard; not
+arithmetics.jaccard / forbes, whose interval arguments are documented as "Must be sorted") are also evaluated
 on sets that are NOT listed in ascending start order (case key "listing": every permutation of the enumerated sets, for
 both operands); the per-base definitions do not depend on the listing order, so the oracle is the same.
 Every contract also checks that the input Interval object is left unchanged by the call.
@@ -314,11 +315,11 @@ def chk_sort_history(col, case):
         lab = ordering_label(o)
         used = sorted({r[0] for r in rows})
         if not earlier:
-            when = "first-call"
+            when = "first call"
         elif all(same_ranking(o, e, used) for e in earlier):
-            when = "after-same-ordering"
+            when = "after calls with the same chromosome ranking"
         else:
-            when = "after-other-ordering"
+            when = "after a call with another chromosome ranking"
         earlier.append(o)
         I = mk_rows(rows)
         if names is not None:
@@ -326,25 +327,25 @@ def chk_sort_history(col, case):
                 continue
             I = string_encode(I, names)
         before = [snapshot(I, names)]
-        res = col.guarded(lambda: sort_intervals(I, **kwargs), "sort_history:%s:%s" % (lab, when), case)
+        res = col.guarded(lambda: sort_intervals(I, **kwargs), "sort_history:" + o["kind"], case)
         if res is None:
             return
         inp = list(zip(chrom_names(I, names), *zip(*pairs_of(I)))) if len(I) else []
         out = list(zip(chrom_names(res, names), *zip(*pairs_of(res)))) if len(res) else []
-        what = "call %d of %d (%s): out %r" % (i + 1, len(steps), lab, out)
-        if not col.check(sorted(inp) == sorted(out), "sort_history:not-a-permutation:%s:%s" % (lab, when), case, "in %r " % (inp,) + what):
+        what = "call %d of %d (%s, %s): out %r" % (i + 1, len(steps), lab, when, out)
+        if not col.check(sorted(inp) == sorted(out), "sort_history:not-a-permutation:" + o["kind"], case, "in %r " % (inp,) + what):
             return
         keys = [(rank(r[0]), r[1], r[2]) for r in out]
         for k1, k2 in zip(keys, keys[1:]):
-            if k1[0] > k2[0]:
-                col.fail("sort_history:chromosome-order:%s:%s" % (lab, when), case, what)
-            elif k1[0] == k2[0] and k1[1] > k2[1]:
-                col.fail("sort_history:start-order:%s:%s" % (lab, when), case, what)
-            elif k1[:2] == k2[:2] and k1[2] > k2[2]:
+            if k1[:2] == k2[:2] and k1[2] > k2[2] and names is not None:
                 # the lexsort of a StringEncoding column ignores the stops in every call, history or not: that is the
                 # finding of the single-call contract and keeps its signature
-                sig = "sort:stop-order:string_encoded" if names is not None else "sort_history:stop-order:%s:%s" % (lab, when)
-                col.fail(sig, case, "equal (chromosome,start) but stops decrease: " + what)
+                col.fail("sort:stop-order:string_encoded", case, "equal (chromosome,start) but stops decrease: " + what)
+            elif k1 > k2:
+                # one signature per way of giving the ordering: the call is not in (its own chromosome rank, start, stop)
+                # order (which of the three is in the message; the single-call contract "sort" tells them apart)
+                level = "chromosome" if k1[0] > k2[0] else ("start" if k1[1] > k2[1] else "stop")
+                col.fail("sort_history:call-not-in-its-own-order:" + o["kind"], case, level + " order broken: " + what)
         unchanged(col, "sort_history", case, before, (I, names))
 
 
@@ -450,9 +451,9 @@ def close(x, frac):
 
 
 def chk_similarity(col, case):
-    """case: sizes [[name,S],...], A, B rows sorted by (chromosome order, start); with "listing": "permuted" the rows of each
-    chromosome are contiguous and the chromosomes in genome order (what the grouped streams need), but the intervals of a
-    chromosome are listed in any order"""
+    """case: sizes [[name,S],...], A, B rows sorted by (chromosome order, start).  With "listing": "permuted" the rows are
+    in ANY order (chromosomes may interleave) and only Geometry.jaccard is evaluated: arithmetics.jaccard / forbes document
+    their interval arguments as "Must be sorted", Geometry.jaccard states no such precondition"""
     from bionumpy.arithmetics import jaccard, forbes
     from bionumpy.genomic_data.geometry import Geometry
     sizes = [tuple(x) for x in case["sizes"]]
@@ -470,27 +471,29 @@ def chk_similarity(col, case):
     sizes_dict = dict(sizes)
     nchr = "2-contigs" if len(sizes) > 1 else "1-contig"
     es = ":empty-interval-set" if (not A or not B) else ""
-    if case.get("listing"):
+    permuted = bool(case.get("listing"))
+    if permuted:
         es += LISTING_TAG
     IA, IB = mk_rows(A), mk_rows(B)
     before = [snapshot(IA), snapshot(IB)]
     if a + b + c > 0:
         exp = Fraction(a, a + b + c)
-        col.case(dict(case, f="jaccard"), nontrivial=bool(A) and bool(B), contract="jaccard")
-        got = col.guarded(lambda: float(jaccard(dict(sizes_dict), IA, IB)), "jaccard" + es, case)
-        if got is not None:
-            col.check(close(got, exp), "jaccard:not-a/(a+b+c):" + nchr + es, case, "got %r expected %s (a,b,c,d=%r)" % (got, exp, (a, b, c, d)))
+        if not permuted:
+            col.case(dict(case, f="jaccard"), nontrivial=bool(A) and bool(B), contract="jaccard")
+            got = col.guarded(lambda: float(jaccard(dict(sizes_dict), IA, IB)), "jaccard" + es, case)
+            if got is not None:
+                col.check(close(got, exp), "jaccard:not-a/(a+b+c):" + nchr + es, case, "got %r expected %s (a,b,c,d=%r)" % (got, exp, (a, b, c, d)))
         col.case(dict(case, f="Geometry.jaccard"), nontrivial=bool(A) and bool(B), contract="Geometry.jaccard")
         got = col.guarded(lambda: float(Geometry(dict(sizes_dict)).jaccard(IA, IB)), "Geometry.jaccard" + es, case)
         if got is not None:
             col.check(close(got, exp), "Geometry.jaccard:not-a/(a+b+c):" + nchr + es, case, "got %r expected %s (a,b,c,d=%r)" % (got, exp, (a, b, c, d)))
-    if (a + b) > 0 and (a + c) > 0:
+    if (a + b) > 0 and (a + c) > 0 and not permuted:
         exp = Fraction(a * N, (a + b) * (a + c))
         col.case(dict(case, f="forbes"), nontrivial=True, contract="forbes")
-        got = col.guarded(lambda: float(forbes(dict(sizes_dict), IA, IB)), "forbes" + (LISTING_TAG if case.get("listing") else ""), case)
+        got = col.guarded(lambda: float(forbes(dict(sizes_dict), IA, IB)), "forbes", case)
         if got is not None:
-            col.check(close(got, exp), "forbes:not-aN/((a+b)(a+c)):" + nchr + (LISTING_TAG if case.get("listing") else ""), case, "got %r expected %s (a,b,c,d=%r)" % (got, exp, (a, b, c, d)))
-    unchanged(col, "similarity" + (LISTING_TAG if case.get("listing") else ""), case, before, IA, IB)
+            col.check(close(got, exp), "forbes:not-aN/((a+b)(a+c)):" + nchr, case, "got %r expected %s (a,b,c,d=%r)" % (got, exp, (a, b, c, d)))
+    unchanged(col, "similarity" + (LISTING_TAG if permuted else ""), case, before, IA, IB)
 
 
 def _clip_rows(col, op, case, rows, sizes_of_rows, got):
@@ -635,12 +638,6 @@ def listings(s):
         if list(p) not in out:
             out.append(list(p))
     return out
-
-
-def chromosome_wise_listings(rows, names):
-    """every listing of the rows that keeps the chromosomes contiguous and in the order of `names`, the sorted one first"""
-    per = [listings([r for r in rows if r[0] == n]) for n in names]
-    return [sum(c, []) for c in itertools.product(*per)]
 
 
 def sort_orderings(names, keys=("natural", "neglen", "reversed", "number", "constant", "human"), encoded=1):
@@ -827,12 +824,15 @@ def gen_cases(tier, rng, rng_seed=0):
     # -- count_overlap / intersect: the same pairs of sets, every listing order of both operands except both ascending ---
     for S in range(1, SMAX + 1):
         full = disjoint_sets(S, 3)
-        # exhaustive up to S=4; above that the larger sets are left out: quick S=5 <= 2 intervals per set and only the
-        # reversed listings, thorough S=5 <= 5 intervals in the two sets together, S=6 <= 3 together
+        # exhaustive up to S=4 (quick: S=3, and S=4 with <= 5 intervals in the two sets together); above that the larger
+        # sets are left out: quick S=5 <= 2 intervals per set and only the reversed listings, thorough S=5 <= 5 intervals
+        # in the two sets together, S=6 <= 3 together
         if quick and S > 5:
             continue
         for A, B in itertools.product(full, full):
             if S > 4 and (max(len(A), len(B)) > 2 if quick else len(A) + len(B) > (5 if S == 5 else 3)):
+                continue
+            if quick and S == 4 and len(A) + len(B) > 5:
                 continue
             for PA in listings(A):
                 for PB in listings(B):
@@ -875,16 +875,14 @@ def gen_cases(tier, rng, rng_seed=0):
                         if PA == rotate(A) and PB == rotate(B):
                             continue
                         yield "two_set_permuted", {"op": "unique_intersect", "S": S, "A": PA, "B": PB, "listing": "permuted"}
-    # -- jaccard / forbes: intervals of a chromosome in any order ------------------------------------------------------------
-    for sizes, maxn in ([([("chr1", 2)], 3), ([("chr1", 1), ("chr2", 2)], 2)] if quick else
-                        [([("chr1", 2)], 3), ([("chr1", 3)], 2), ([("chr1", 1), ("chr2", 2)], 2), ([("chr1", 2), ("chr2", 2)], 2)]):
+    # -- Geometry.jaccard: rows in any order (arithmetics.jaccard / forbes document "Must be sorted") ---------------------
+    for sizes, maxn in ([([("chr1", 3)], 2), ([("chr1", 1), ("chr2", 2)], 2)] if quick else
+                        [([("chr1", 2)], 3), ([("chr1", 3)], 2), ([("chr1", 1), ("chr2", 2)], 2), ([("chr1", 2), ("chr2", 1)], 2), ([("chr1", 2), ("chr2", 2)], 2)]):
         names = [n for n, _ in sizes]
-        sets = [sorted_rows(s, names) for s in multisets(genome_rows(sizes), maxn)]
-        lists = [(s, chromosome_wise_listings(s, names)) for s in sets]
+        sets = [sorted_rows(s, names) for s in multisets(genome_rows(sizes), maxn) if s]
+        lists = [(s, listings(s)) for s in sets]
         for (A, LA), (B, LB) in itertools.product(lists, lists):
-            if not A or not B:
-                continue        # an empty set has one listing only; empty sets are evaluated by the ascending cases
-            # quick: both operands in their reversed listing; thorough: every pair of listings except both ascending
+            # quick: both sets in their reversed listing; thorough: every pair of listings except both ascending
             for PA, PB in ([(LA[-1], LB[-1])] if quick else itertools.product(LA, LB)):
                 if (PA, PB) != (A, B):
                     yield "similarity_permuted", {"op": "similarity", "sizes": sizes, "A": PA, "B": PB, "listing": "permuted"}
@@ -983,14 +981,15 @@ def run(tier="quick", seed=0):
         "Geometry (2 contigs)": "sizes %s: get_pileup/get_mask on every multiset of 0..3 rows%s, clip and extend_to_size on every row" %
                                 (("(1,1),(1,2),(2,1),(2,2),(3,2)", " (0..2 for (3,2))") if quick else ("(1,1),(1,2),(2,1),(2,2),(3,2),(2,3),(3,3),(1,4),(4,1)", "")),
         "sampled": "%d seeded rounds: contig 7..40, 4..10 intervals (1..6 for the non-overlapping sets), every operation once per round" % (150 if quick else 2500),
-        "count_overlap/intersect, unsorted listings": "every listing order of both operands (not both ascending) of the pairs above: S=1..4 all pairs; " +
-            ("S=5 sets of 0..2 intervals, both reversed" if quick else "S=5 pairs with <= 5 intervals together, S=6 with <= 3 together"),
+        "count_overlap/intersect, unsorted listings": "every listing order of both operands (not both ascending) of the pairs above: " +
+            ("S=1..3 all pairs, S=4 pairs with <= 5 intervals together, S=5 sets of 0..2 intervals, both reversed" if quick else "S=1..4 all pairs, S=5 pairs with <= 5 intervals together, S=6 with <= 3 together"),
         "global_intersect, unsorted listings": "all rows on one contig of a 2-contig encoding, sizes %s, non-overlapping sets of 1..%s rows, every listing order; "
             "rows on both contigs: sizes (2,2), 1..2 rows per set, %s" % (("(3,2)", 3, "both listings reversed") if quick else ("(3,3),(2,4)", "3 (2 for (2,4))", "every listing order")),
         "unique_intersect, every listing order": "S=1..%d, entry multisets of 0..2 x interval multisets of 0..2 (0..3 with <= 1 entry and S<=%d): every listing "
             "order of both other than the rotation used above" % ((3, 2) if quick else (4, 3)),
-        "jaccard/forbes, unsorted listings": ("1 contig S=2 (1..3 intervals per set), 2 contigs (1,2) (1..2): both sets in their reversed listing" if quick else
-            "1 contig S=2 (1..3 intervals per set), S=3 (1..2), 2 contigs (1,2),(2,2) (1..2): every pair of listings that keeps a contig's rows together"),
+        "Geometry.jaccard, unsorted listings": ("1 contig S=3 (1..2 intervals per set), 2 contigs (1,2) (1..2): both sets in their reversed listing" if quick else
+            "1 contig S=2 (1..3 intervals per set), S=3 (1..2), 2 contigs (1,2),(2,1),(2,2) (1..2): every pair of listings except both ascending") +
+            " (any row order, contigs may interleave); not arithmetics.jaccard/forbes, whose arguments are documented as 'Must be sorted'",
         "sort histories": "names chr1,chr2,chr10 (one row each, 2..3 rows%s): every ordered pair of 14 orderings (default, the 6 sort_order lists, key "
             "functions natural/neglen/reversed/number/constant/human_key_func, StringEncoding), second call on the same or a changed row list; "
             "every triple of %d orderings; names chr1,chr2,chr10,chrX: every ordered pair of %d orderings (%s sort_order lists)" %
